@@ -169,6 +169,11 @@ class TModel:
         if self.state is not None:
             rec['cbs'].append(('exit', self.state))
             rec['sevs'].append(('exit', self.state))
+            if self.spec.get('exit_fail') == self.state:
+                # the last on_exit event goes to a block that does not know the event type: a
+                # harmless failure; the transition is abandoned, the FSM stays in the state and
+                # a pending timer keeps running
+                raise ModelError('exit-unknown-event')
             if self.armed is not None:
                 rec['cancelled'] = True
             self.armed = None
@@ -253,6 +258,10 @@ def build_block(edzed, spec, hist, probes):
         kw[f"on_enter_{st}"] = edzed.Event(probes, 'enter')
         kw[f"on_exit_{st}"] = edzed.Event(probes, 'exit')
     kw['on_notrans'] = edzed.Event(probes, 'notrans')
+    if spec.get('exit_fail') in spec['watch']:
+        st = spec['exit_fail']
+        picky = edzed.Input('picky', initdef=0)
+        kw[f"on_exit_{st}"] = [kw[f"on_exit_{st}"], edzed.Event(picky, 'vf_nosuch_event')]
     if kind == 'timer':
         for k, v in spec.get('targs', {}).items():
             kw[k] = real_dur(v)
@@ -340,7 +349,16 @@ def run_case(case, ctx):
                 async def stop_async(self):
                     await asyncio.sleep(0.5)
             SlowStop('slowstop', stop_timeout=3)
+        if case.get('decoys'):
+            # other instances of the same library classes with other durations, created before
+            # and after the block under test: nothing may be shared between instances
+            edzed.Timer('decoy_t1', t_on=555.0, t_off='7m')
+            edzed.InputExp('decoy_i1', duration=555.0, expired='dx', initdef='d1')
         fsm = build_block(edzed, spec, hist, probes)
+        if case.get('decoys'):
+            edzed.Timer('decoy_t2', t_period=1554.0, initdef='on')
+            edzed.InputExp('decoy_i2', duration='12m57s', expired='dx', initdef='d2')
+            ctx.count('cases_with_decoy_instances')
         rst = case.get('restore')
         if rst:
             # the block is restored from saved state: in a timed state, its timer due later
@@ -586,6 +604,16 @@ def judge(case, hist, state, ctx):
         if exp_exc == 'unknown-event':
             if got[0] != 'exc' or got[1] != 'EdzedUnknownEvent':
                 raise core.Violation('unknown-event-not-refused', f"{where}: {ev!r} -> {got!r}")
+            continue
+        if exp_exc == 'exit-unknown-event':
+            ctx.count('transitions_abandoned_by_harmless_exit_failure')
+            if got[0] != 'exc' or got[1] != 'EdzedUnknownEvent':
+                raise core.Violation('harmless-exit-failure-misreported',
+                                     f"{where}: {ev!r} -> {got!r}, expected EdzedUnknownEvent")
+            if ext[5] != model.state:
+                raise core.Violation('wrong-state',
+                                     f"{where}: after the abandoned transition the state is "
+                                     f"{ext[5]!r}, expected {model.state!r}")
             continue
         if exp_exc is not None:
             ctx.count('no_duration_errors' if exp_exc == 'no-duration' else 'chain_limit_errors')
@@ -861,6 +889,10 @@ def gen(ctx):
                 'tail': rng.choice(['after', 'pending', 'pending', 'long'])}
         if rng.random() < 0.1:
             case['double_stop'] = True
+        if spec['kind'] in ('timer', 'inputexp') and rng.random() < 0.4:
+            case['decoys'] = True
+        if rng.random() < 0.1 and spec['watch']:
+            spec['exit_fail'] = rng.choice(spec['watch'])
         if rng.random() < 0.12 and not case.get('failed_start'):
             tstates = [st for st, (d, _e) in spec['timers'].items()]
             if spec['kind'] == 'timer':
